@@ -43,8 +43,8 @@ mutual
     | .assign _ v => RvOK v
     | .defMacro _ _ => True
     | .defRoutine _ _ _ => False
-    | .call _ _ _ => False
-    | .ret _ => False
+    | .call _ ps as => SimpleArgs as ∧ NoResultReg as ∧ ps.Nodup
+    | .ret v => (match v with | some rv => RvOK rv | none => True)
     | .ite c t e => RvOK c ∧ FragBlock t ∧ (match e with | some b => FragBlock b | none => True)
     | .repeat_ h body => LoopHdrOK h ∧ FragBlock body
     | .brk => True
@@ -248,7 +248,7 @@ variable {img : Image} {K : Ctx} {stk : List Frame} {un : List Val} {σ : S} {s 
 /-! ### ranges -/
 
 theorem evalRange_error {r : Range} (hr : RangeOK r) (f : Nat) (a b : Reg) (σ : S) (o : Outcome)
-    (h : evalRange f r a b σ = .error o) : o ≠ .normal ∧ o ≠ .brk := by
+    (h : evalRange f r a b σ = .error o) : o ≠ .normal ∧ o ≠ .brk ∧ o ≠ .ret := by
   cases f with
   | zero => simp [evalRange] at h; subst h; simp
   | succ f =>
@@ -337,18 +337,18 @@ theorem exec_clear (o : Option Range) (a b : Reg) (ha : a ≠ .unitMode) (hb : b
 
 theorem evalMatrixRanges_error {rows cols : Option Range} (hr : ORangeOK rows) (hcl : ORangeOK cols)
     (f : Nat) (cf : Bool) (σ : S) (o : Outcome)
-    (h : evalMatrixRanges f rows cols cf σ = .error o) : o ≠ .normal ∧ o ≠ .brk := by
+    (h : evalMatrixRanges f rows cols cf σ = .error o) : o ≠ .normal ∧ o ≠ .brk ∧ o ≠ .ret := by
   cases f with
   | zero => simp [evalMatrixRanges] at h; subst h; simp
   | succ f =>
     have hR : ∀ st o, (match rows with | some r => evalRange f r .firstRow .lastRow st | none => .ok st)
-        = .error o → o ≠ .normal ∧ o ≠ .brk := by
+        = .error o → o ≠ .normal ∧ o ≠ .brk ∧ o ≠ .ret := by
       intro st o h
       cases rows with
       | none => simp at h
       | some r => exact evalRange_error hr f _ _ st o h
     have hC : ∀ st o, (match cols with | some r => evalRange f r .firstColumn .lastColumn st | none => .ok st)
-        = .error o → o ≠ .normal ∧ o ≠ .brk := by
+        = .error o → o ≠ .normal ∧ o ≠ .brk ∧ o ≠ .ret := by
       intro st o h
       cases cols with
       | none => simp at h
@@ -600,7 +600,7 @@ theorem stmt_get (f : Nat) (name : Rv) (hv : RvOK name) : StmtGoal img K (.get n
 
 theorem evalOutArgs_error :
     ∀ (f : Nat) (as : Args), ArgsOK as → ∀ (σ : S) (o : Outcome),
-      evalOutArgs f as σ = .error o → o ≠ .normal ∧ o ≠ .brk := by
+      evalOutArgs f as σ = .error o → o ≠ .normal ∧ o ≠ .brk ∧ o ≠ .ret := by
   intro f
   induction f with
   | zero => intro as _ σ o h; simp [evalOutArgs] at h; subst h; simp
